@@ -244,16 +244,16 @@ type fakePeer struct {
 	done chan struct{}
 }
 
-func (p *fakePeer) Id() string                                                { return p.id }
-func (p *fakePeer) Context() context.Context                                  { return p.ctx }
-func (p *fakePeer) AcquireDrpcConn(context.Context) (drpc.Conn, error)        { return fakeConn{p}, nil }
-func (p *fakePeer) ReleaseDrpcConn(context.Context, drpc.Conn)                {}
-func (p *fakePeer) DoDrpc(_ context.Context, do func(drpc.Conn) error) error  { return do(fakeConn{p}) }
-func (p *fakePeer) IsClosed() bool                                            { return false }
-func (p *fakePeer) CloseChan() <-chan struct{}                                { return p.done }
-func (p *fakePeer) SetTTL(time.Duration)                                      {}
-func (p *fakePeer) TryClose(time.Duration) (bool, error)                      { return false, nil }
-func (p *fakePeer) Close() error                                              { return nil }
+func (p *fakePeer) Id() string                                               { return p.id }
+func (p *fakePeer) Context() context.Context                                 { return p.ctx }
+func (p *fakePeer) AcquireDrpcConn(context.Context) (drpc.Conn, error)       { return fakeConn{p}, nil }
+func (p *fakePeer) ReleaseDrpcConn(context.Context, drpc.Conn)               {}
+func (p *fakePeer) DoDrpc(_ context.Context, do func(drpc.Conn) error) error { return do(fakeConn{p}) }
+func (p *fakePeer) IsClosed() bool                                           { return false }
+func (p *fakePeer) CloseChan() <-chan struct{}                               { return p.done }
+func (p *fakePeer) SetTTL(time.Duration)                                     {}
+func (p *fakePeer) TryClose(time.Duration) (bool, error)                     { return false, nil }
+func (p *fakePeer) Close() error                                             { return nil }
 
 type fakeConn struct{ p *fakePeer }
 
